@@ -14,6 +14,7 @@ import (
 	"time"
 
 	ristretto "github.com/dgraph-io/ristretto/v2"
+	"github.com/dgraph-io/ristretto/v2/z"
 	"verif/harness/lab"
 )
 
@@ -152,6 +153,7 @@ func c08Episode[K ristretto.Key](c *Ctx, wd *lab.Watchdog, cs c08Case, mk func(i
 				key    int
 				expSec int64
 			}
+			var lifeSnap *z.HistogramData
 			ring := make([]stormKey, 4096)
 			ringN := 0
 			stormEnd := time.Now().Add(3500 * time.Millisecond) // a del-storm spans several sweeps of due buckets
@@ -273,7 +275,16 @@ func c08Episode[K ristretto.Key](c *Ctx, wd *lab.Watchdog, cs c08Case, mk func(i
 							m.SetsDropped() + m.SetsRejected() + m.GetsDropped() + m.GetsKept()
 						_ = m.Ratio()
 						_ = m.String()
-						_ = m.LifeExpectancySeconds()
+						// a snapshot handed out earlier is the caller's own copy: reading it later must not touch anything the
+						// cache still updates
+						if lifeSnap != nil {
+							_ = lifeSnap.String()
+							_ = lifeSnap.Percentile(0.5) + lifeSnap.Mean()
+							for _, n := range lifeSnap.CountPerBucket {
+								_ = n
+							}
+						}
+						lifeSnap = m.LifeExpectancySeconds()
 					})
 				}
 				st.calls[kind]++
